@@ -1023,6 +1023,86 @@ def canonicalise_ptr_methods(j):
 
 
 
+def hoist_terminator_construction(j):
+    """`push_send(&mut self, sig: &Signal<T>) { self.wait_list.push_back(sig.get_terminator()) }` - the helper builds the
+    terminator its callers used to build.  Rewritten into the pinned contract: inside the helper the one `get_terminator(param)`
+    becomes a move of the parameter (now of terminator type), and every call site gets the `get_terminator(arg)` call in front of
+    it.  Only when the helper uses the signal parameter for nothing else; anything else is left alone (the rules then report the
+    shape they do not know)."""
+    bodies = {b['key']: b for b in j['bodies']}
+    done = 0
+    for name in ('push_send', 'push_recv'):
+        key = 'internal::ChannelInternal::<T>::' + name
+        h = bodies.get(key)
+        if h is None or h.get('arg_count') != 2:
+            continue
+        ty = str(h['locals'][2].get('ty', '')).replace(' ', '')
+        if ty not in ('&signal::Signal<T>', "&'_signal::Signal<T>"):
+            continue
+        # uses of _2 in the helper: exactly one, as the (moved / copied, possibly through a reborrow temp) argument of get_terminator
+        gt = []
+        other = 0
+        reborrow = {}   # local -> (block, stmt) of `_k = &(*_2)`
+
+        def mentions(x):
+            return isinstance(x, dict) and ((x.get('l') == 2 and 'p' in x) or any(mentions(v) for v in x.values())) or \
+                (isinstance(x, list) and any(mentions(v) for v in x))
+        for blk in h['blocks']:
+            for st in blk['stmts']:
+                if st['k'] == 'assign' and st['rv'].get('k') == 'ref' and st['rv']['p'].get('l') == 2 and st['rv']['p'].get('p') == ['*'] \
+                        and not st['lhs'].get('p'):
+                    reborrow[st['lhs']['l']] = (blk, st)
+                elif mentions(st):
+                    other += 1
+        for blk in h['blocks']:
+            t = blk['term']
+            if t['k'] == 'call' and t.get('fn') and t['fn']['path'].endswith('Signal::<T>::get_terminator') and len(t['args']) == 1 \
+                    and t['args'][0].get('k') in ('copy', 'move') and not t['args'][0]['p'].get('p') \
+                    and (t['args'][0]['p'].get('l') == 2 or t['args'][0]['p'].get('l') in reborrow):
+                gt.append(blk)
+            elif mentions(t) or any(isinstance(a, dict) and a.get('k') in ('copy', 'move') and a['p'].get('l') in reborrow for a in (t.get('args') or [])):
+                other += 1
+        if len(reborrow) > 1:
+            continue
+        if len(gt) != 1 or other:
+            continue
+        blk = gt[0]
+        t = blk['term']
+        fn_tpl = dict(t['fn'])
+        term_ty = t['dest'].get('ty') or 'signal::SignalTerminator<T>'
+        # 1. the helper: parameter 2 is the terminator
+        for k_, (rb, rst) in reborrow.items():
+            rb['stmts'].remove(rst)
+        h['locals'][2] = dict(h['locals'][2], ty=term_ty)
+        blk['stmts'].append({'k': 'assign', 'lhs': t['dest'], 'rv': {'k': 'use', 'o': {'k': 'move', 'p': {'l': 2, 'p': [], 'ty': term_ty}}},
+                             'at': t.get('at'), 'exp': False})
+        blk['term'] = {'k': 'goto', 'target': t['target'], 'at': t.get('at')}
+        if isinstance(h.get('sig'), str):
+            h['sig'] = h['sig'].replace('&signal::Signal<T>', term_ty)
+        # 2. the call sites
+        for b in j['bodies']:
+            for body in [b] + list(b.get('promoted') or []):
+                nblocks = len(body['blocks'])
+                for bi in range(nblocks):
+                    cb = body['blocks'][bi]
+                    ct = cb['term']
+                    if ct['k'] != 'call' or not ct.get('fn') or ct['fn'].get('path') != key or len(ct['args']) != 2:
+                        continue
+                    tmp = len(body['locals'])
+                    body['locals'].append({'ty': term_ty, 'name': None})
+                    nb = len(body['blocks'])
+                    call2 = dict(ct)
+                    call2['args'] = [ct['args'][0], {'k': 'move', 'p': {'l': tmp, 'p': [], 'ty': term_ty}}]
+                    body['blocks'].append({'stmts': [], 'term': call2})
+                    for kx in ('cleanup',):
+                        if kx in cb:
+                            body['blocks'][-1][kx] = cb[kx]
+                    cb['term'] = {'k': 'call', 'fn': fn_tpl, 'args': [ct['args'][1]], 'dest': {'l': tmp, 'p': [], 'ty': term_ty},
+                                  'target': nb, 'unwind': ct.get('unwind'), 'fn_at': ct.get('fn_at'), 'at': ct.get('at'), 'exp': False}
+                    done += 1
+    return done
+
+
 def adopt_terminator_wake(j):
     """`Signal::wake(this: *const Signal<T>, state)` moved onto the capability type that wraps the pointer
     (`impl SignalTerminator { unsafe fn finish(&self, state: u8) { let this = self.0; .. } }`): when `Signal::wake` is gone and
@@ -1390,6 +1470,10 @@ def resolve(j):
         pass
     try:
         adopt_terminator_wake(j)
+    except Exception:
+        pass
+    try:
+        hoist_terminator_construction(j)
     except Exception:
         pass
     try:
